@@ -72,9 +72,13 @@ type vfStore struct {
 	// FailAt, if set, may fail a ReadAt/WriteAt on (path, offset).
 	FailAt func(path string, off int64, n int, write bool) error
 	// OpenErr, CmdErr, ListErr: injected handler results (nil = normal behaviour).
-	OpenErr func(method, path string) error
-	CmdErr  func(method, path string) error
-	ListErr func(method, path string) error
+	// CloseErr, if set, is what Close of a handler object returns (the object still counts the call).
+	CloseErr func(path string) error
+	// PartialAt, if set, may make a ReadAt deliver keep bytes and then fail with err (n > 0 together with a non-EOF error).
+	PartialAt func(path string, off int64, n int) (keep int, err error)
+	OpenErr   func(method, path string) error
+	CmdErr    func(method, path string) error
+	ListErr   func(method, path string) error
 	// ShortReads: ReadAt returns at most this many bytes (0 = off).
 	Now int64
 }
@@ -194,6 +198,12 @@ func (o *vfObj) ReadAt(p []byte, off int64) (int, error) {
 	if off >= int64(len(o.file.data)) {
 		return 0, io.EOF
 	}
+	if o.st.PartialAt != nil {
+		if keep, perr := o.st.PartialAt(o.path, off, len(p)); perr != nil {
+			n := copy(p[:min(keep, len(p))], o.file.data[off:])
+			return n, perr
+		}
+	}
 	n := copy(p, o.file.data[off:])
 	if n < len(p) {
 		return n, io.EOF
@@ -248,6 +258,9 @@ func (o *vfObj) Close() error {
 	}
 	o.closed.Store(true)
 	o.closes.Add(1)
+	if o.st.CloseErr != nil {
+		return o.st.CloseErr(o.path)
+	}
 	return nil
 }
 
